@@ -510,4 +510,11 @@ theorem runOps_sync (ops : List Op) : ∀ (e : Enc) (d : Dec), Rel e d →
       refine ⟨e', d', ?_, h2⟩
       simp only [runOps, blocksOf, ha, h1]
 
+/-- operations used by the non-vacuity examples of Props/C18: repeated and sensitive fields, an entry evicted by a
+shrink, two size updates opening the next block -/
+def demoOps : List Op :=
+  [.block [⟨[120, 45, 97], [49], false⟩, ⟨[120, 45, 97], [49], false⟩, ⟨[120, 45, 98], [50], true⟩],
+   .setSize 40, .setSize 4096,
+   .block [⟨[120, 45, 97], [49], false⟩, ⟨[58, 109, 101, 116, 104, 111, 100], [71, 69, 84], false⟩]]
+
 end MosnVerif.Lemmas.HpackTable
